@@ -23,7 +23,7 @@ def wl_bloom(ctx, rng, case):
         est, rate = rng.choice([(20000, 0.01), (60000, 0.05), (9000, 1e-5), (70000, 0.01), (300000, 0.01)])  # several pages of bits, up to 350 KiB
         m, k = _r.bloom_sizing_simple(est, rate)
         ctx.count("large_bloom_pairs")
-    aligned = case.index % 15 == 7
+    aligned = case.index % 15 == 7 and (ctx.tier == "quick" or case.index % 120 == 7)  # (thorough: 1 500 of them - they are the slow ones)
     if aligned:
         # bit arrays whose length is an exact multiple of a power-of-two block size (512 .. 64 KiB): no remainder after the last whole block
         est, rate, m, k = gen.aligned_geometry(rng, max_len=140000)
@@ -80,10 +80,39 @@ def wl_bloom(ctx, rng, case):
             ctx.count("operands_reloaded_before_the_union")
             return n
 
+        def from_shards(stream, on_disk):
+            """the same contents reached another way: two shards fed half of the stream each, united, the result exported and opened again
+            (on disk or in memory) - its element count is then an ESTIMATE of its bits, not the number of additions behind them"""
+            h = len(stream) // 2
+            s1, s2 = mk(False), mk(False)
+            feed_bloom(s1, stream[:h])
+            feed_bloom(s2, stream[h:])
+            u = s1.union(s2)
+            if u is None or u.elements_added < 0:
+                return None
+            p = sc.path("shards")
+            u.export(p)
+            if on_disk:
+                o = P.BloomFilterOnDisk(p, **bl.kw_hash(hf))
+                paths[id(o)] = p
+            else:
+                o = P.BloomFilter(filepath=p, **bl.kw_hash(hf))
+            objs.append(o)
+            ctx.count("operands_that_are_reopened_unions_of_shards")
+            return o
+
         sA, sB, sAB = mk(disk[0]), mk(disk[1]), mk(False)
         feed_bloom(sA, A)
         feed_bloom(sB, B)
         feed_bloom(sAB, A + B)
+        if isinstance(est, int) and rng.random() < 0.3:
+            sA = from_shards(A, disk[0]) or sA
+        if isinstance(est, int) and rng.random() < 0.3:
+            sB = from_shards(B, disk[1]) or sB
+        if rng.random() < 0.1 and sA.elements_added > 0:
+            # the element count is writable: a count lowered by the application (it need not be the number of additions behind the bits)
+            sA.elements_added = rng.randint(0, sA.elements_added)
+            ctx.count("operands_whose_count_was_lowered_through_the_setter")
         if m > 8 * 30000 or aligned:
             bl.dense_fill(rng, [[sA, sAB], [sB, sAB]], m, k)  # large arrays: (nearly) every byte carries a bit in some operand
             ctx.count("large_pairs_filled_densely")
